@@ -41,7 +41,7 @@ func runC14(c *core.Ctx) {
 	c.Rule("R6", "wrappers keep one write sink (shared with C17)", 4)
 	c.Rule("R7", "a streamed chunk handed to the write queue is not recycled or reused by the producer, and the sender's scratch lists do not overlap (shared with C10-R1/R4/R6)", 1)
 	importObligations(c, runC10, "R7", func(o *core.Obligation) bool {
-		return o.Rule == "R6" || (o.Rule == "R1" || o.Rule == "R4") && (strings.Contains(o.Key, "no-use-after-transfer") || strings.Contains(o.Key, "not-after-handoff") || strings.Contains(o.Key, "transfers-fresh-buffer"))
+		return o.Rule == "R6" || o.Rule == "R2" || (o.Rule == "R1" || o.Rule == "R4") && (strings.Contains(o.Key, "no-use-after-transfer") || strings.Contains(o.Key, "not-after-handoff") || strings.Contains(o.Key, "transfers-fresh-buffer"))
 	})
 
 	// "checked" means checked by a helper that raises for every error
@@ -351,6 +351,33 @@ func runC14(c *core.Ctx) {
 				return core.Continue
 			}, func(a, b *ssa.BasicBlock) bool { return !isErrNilEdge(a, b, errv) })
 			c.Check(t2 == nil, "R3", "ReadFrom/write-error-stops", p.InstrPos(wcall), "a write error ends the copy loop", "ReadFrom keeps reading after a write error")
+			// and it is that error the caller gets: a return taken because the write failed yields the write's error
+			// (not the read's, which is nil at that point: the call would report success for a chunk that was dropped)
+			c.Instance("R3")
+			wrong := ""
+			if errv != nil {
+				for _, b := range rf.Blocks {
+					if len(b.Instrs) == 0 {
+						continue
+					}
+					for _, s := range b.Succs {
+						if !isErrNonNilEdge(b, s, errv) {
+							continue
+						}
+						core.AllInstrs(rf, func(x ssa.Instruction) {
+							ret, ok := x.(*ssa.Return)
+							if !ok || len(ret.Results) != 2 || !core.EdgeDominates(b, s, ret.Block()) {
+								return
+							}
+							r := core.Unwrap(ret.Results[1])
+							if !sameErr(r, errv) && r != errv {
+								wrong = p.InstrPos(ret)
+							}
+						})
+					}
+				}
+			}
+			c.Check(errv != nil && wrong == "", "R3", "ReadFrom/write-error-returned", p.InstrPos(wcall), "the failed-write exit returns the write error", "ReadFrom's exit for a failed write ("+wrong+") returns something other than the write's error: the caller is told the data was written although the chunk was refused")
 		}
 		c.Check(wcall != nil && cmpOK && retShort, "R3", "ReadFrom/short-write", p.Pos(rf.Pos()), "written count compared with the read count; io.ErrShortWrite on mismatch", "ReadFrom does not detect a short write (written count not compared / io.ErrShortWrite never returned)")
 	}
